@@ -78,6 +78,20 @@ def main(tier, seed):
                     return [pd.raw_of(x) for x in _conv[b][1]]
                 cases.append(dict(label=[name, 'block%d' % bi, label, lead], acceptor=acceptor,
                                   ops=pd.to_script(conv, cutter2, lead), ref='ref_%s_%d' % (name, int(lead))))
+        # a segment of exactly the number of bytes the provider asks recv() for (its max_pdu_length), one less, one more
+        for bi in peer_blocks:
+            raw = b''.join(pd.raw_of(x) for x in conv[bi][1])
+            for d in (0, -1, 1):
+                m = len(raw) + d
+                if m < 12:
+                    continue
+                rname = 'ref_%s_0_m%d' % (name, m)
+                refs[rname] = (acceptor, pd.to_script(conv, None, False), m)
+
+                def whole(b, r, _t=bi, _conv=conv):
+                    return [r] if b == _t else [pd.raw_of(x) for x in _conv[b][1]]
+                cases.append(dict(label=[name, 'block%d' % bi, 'segment=recv-size%+d' % d, False], acceptor=acceptor,
+                                  max_len=m, ops=pd.to_script(conv, whole, False), ref=rname))
     runner, results, failing, broken, _refs = pd.run_cases(
         'C03', dec, cases, [('corr', 'prov_corr'), ('spec', 'c03_spec')], size=30, refs=refs)
     cov = dec.coverage
@@ -85,9 +99,9 @@ def main(tier, seed):
     cov['distinct_nontrivial'] = len(set(tuple(pd.short_ops(c['ops'])) for c in cases if sum(1 for o in c['ops'] if o[0] == 'seg') >= 2))
     cov['rule'] = ('corpus of %d conversations (acceptor and requestor) x {one PDU per segment, all at once, every single '
                    'cut offset (sampled for long blocks in quick), pairs of cuts, 1-byte dribble, seeded k-cuts} of every '
-                   'peer block x first segment waiting or not; non-trivial = at least two segments' % len(corpus))
+                   'peer block x first segment waiting or not; whole blocks as one segment of exactly / one below / one above the recv size; non-trivial = at least two segments' % len(corpus))
     cov['distribution'] = dict(by_kind=dict((k, sum(1 for c in cases if c['label'][1 if len(c['label']) == 3 else 2].startswith(k)))
-                                            for k in ('one-pdu', 'all-at', 'cut@', 'cuts@', 'dribble', 'kcuts')),
+                                            for k in ('one-pdu', 'all-at', 'cut@', 'cuts@', 'dribble', 'kcuts', 'segment=')),
                                segments_max=max(sum(1 for o in c['ops'] if o[0] == 'seg') for c in cases))
     cov['samples'] = [dict(label=c['label'], ops=pd.short_ops(c['ops'])[:12], result=pd.summary(r))
                       for c, r in list(zip(cases, results))[40:42]]
